@@ -4,6 +4,7 @@ as the PDB reader: `OK <X… P…> | diags`, `OK INEXACT | diags`, `ERR diags`, 
 -/
 import PdbModel.DriverPdb
 import PdbModel.CifRead
+import PdbModel.CifWrite
 namespace PdbModel
 
 def handleCif : List String → Option String
@@ -17,6 +18,11 @@ def handleCif : List String → Option String
         match lexCif cs with
         | .ok b => if textPredictable b then pure (outcomeTok (readCif o cs)) else pure "UNSUPPORTED"
         | .error _ => pure (outcomeTok (readCif o cs))
+  | "write" :: rest => do
+      let (m, rest) ← parseWMeta rest
+      let (p, _) ← parsePDB rest
+      let (lines, exact) := saveCif p m
+      if exact then pure (bytesTok (lines.flatMap fun ln => ln ++ ['\n'])) else pure "INEXACT"
   | _ => none
 
 end PdbModel
